@@ -107,6 +107,9 @@ pub trait Subject: Serialize + DeserializeOwned + 'static {
     fn faithful() -> bool {
         true
     }
+    /// Generator leaves (as small integers, converted per leaf kind) of the value an ordinary user
+    /// is most likely to hold: zero vector, identity matrix / rotation, unit scale.
+    fn identity(out: &mut Vec<i64>);
     /// Byte lane, A8: what the derive(Deserialize)+deny_unknown_fields mirror of this type reads
     /// from the same bytes (leaves, or the error). None where no mirror exists.
     fn mirror_read(_bytes: &[u8], _plan: &crate::bytes::JPlan) -> Option<Result<Vec<u64>, String>> {
@@ -151,6 +154,9 @@ macro_rules! scal {
             fn read(&self, out: &mut Vec<u64>) {
                 out.push(self.to_bits64());
             }
+            fn identity(out: &mut Vec<i64>) {
+                out.push(0);
+            }
         }
     };
 }
@@ -177,8 +183,9 @@ macro_rules! fty {
 }
 
 macro_rules! rec_one {
-    ($name:literal, $T:ident, $S:ty, { $($f:ident : [$($C:ident)?]),+ }) => {
+    ($name:literal, $T:ident, $S:ty, { $($f:ident : [$($C:ident)?]),+ }, [$($id:expr),*]) => {
         impl Subject for $T<$S> {
+            fn identity(out: &mut Vec<i64>) { out.extend_from_slice(&[$($id),*]); }
             fn type_name() -> String { format!("{}<{}>", $name, <$S as Subject>::type_name()) }
             fn shape() -> Shape { Shape::Rec(vec![$((stringify!($f), <fty!($($C)?; $S) as Subject>::shape())),+]) }
             fn gen_kinds(out: &mut Vec<(Kind, GenClass)>) { $(<fty!($($C)?; $S) as Subject>::gen_kinds(out);)+ }
@@ -191,27 +198,27 @@ macro_rules! rec_one {
 
 /// Struct with public fields, each itself a Subject, at each listed scalar.
 macro_rules! rec {
-    ($name:literal, $T:ident, [$($S:ty),+], $fields:tt) => {
-        $(rec_one!($name, $T, $S, $fields);)+
+    ($name:literal, $T:ident, [$($S:ty),+], $fields:tt, $ident:tt) => {
+        $(rec_one!($name, $T, $S, $fields, $ident);)+
     };
 }
 
-rec!("Vector1", Vector1, [f32, f64, i8, i16, i32, i64, u8, u16, u32, u64], { x: [] });
-rec!("Vector2", Vector2, [f32, f64, i8, i16, i32, i64, u8, u16, u32, u64], { x: [], y: [] });
-rec!("Vector3", Vector3, [f32, f64, i8, i16, i32, i64, u8, u16, u32, u64], { x: [], y: [], z: [] });
-rec!("Vector4", Vector4, [f32, f64, i8, i16, i32, i64, u8, u16, u32, u64], { x: [], y: [], z: [], w: [] });
-rec!("Point1", Point1, [f32, f64, i8, i16, i32, i64, u8, u16, u32, u64], { x: [] });
-rec!("Point2", Point2, [f32, f64, i8, i16, i32, i64, u8, u16, u32, u64], { x: [], y: [] });
-rec!("Point3", Point3, [f32, f64, i8, i16, i32, i64, u8, u16, u32, u64], { x: [], y: [], z: [] });
-rec!("Matrix2", Matrix2, [f32, f64, i32, i64], { x: [Vector2], y: [Vector2] });
-rec!("Matrix3", Matrix3, [f32, f64, i32, i64], { x: [Vector3], y: [Vector3], z: [Vector3] });
-rec!("Matrix4", Matrix4, [f32, f64, i32, i64], { x: [Vector4], y: [Vector4], z: [Vector4], w: [Vector4] });
-rec!("Quaternion", Quaternion, [f32, f64, i32, i64], { v: [Vector3], s: [] });
-rec!("Euler", Euler, [Rad<f32>, Rad<f64>, Deg<f32>, Deg<f64>], { x: [], y: [], z: [] });
-rec!("PerspectiveFov", PerspectiveFov, [f32, f64], { fovy: [Rad], aspect: [], near: [], far: [] });
-rec!("Perspective", Perspective, [f32, f64], { left: [], right: [], bottom: [], top: [], near: [], far: [] });
-rec!("Ortho", Ortho, [f32, f64], { left: [], right: [], bottom: [], top: [], near: [], far: [] });
-rec!("PlanarFov", PlanarFov, [f32, f64], { fovy: [Rad], aspect: [], height: [], near: [], far: [] });
+rec!("Vector1", Vector1, [f32, f64, i8, i16, i32, i64, u8, u16, u32, u64], { x: [] }, [0]);
+rec!("Vector2", Vector2, [f32, f64, i8, i16, i32, i64, u8, u16, u32, u64], { x: [], y: [] }, [0, 0]);
+rec!("Vector3", Vector3, [f32, f64, i8, i16, i32, i64, u8, u16, u32, u64], { x: [], y: [], z: [] }, [0, 0, 0]);
+rec!("Vector4", Vector4, [f32, f64, i8, i16, i32, i64, u8, u16, u32, u64], { x: [], y: [], z: [], w: [] }, [0, 0, 0, 0]);
+rec!("Point1", Point1, [f32, f64, i8, i16, i32, i64, u8, u16, u32, u64], { x: [] }, [0]);
+rec!("Point2", Point2, [f32, f64, i8, i16, i32, i64, u8, u16, u32, u64], { x: [], y: [] }, [0, 0]);
+rec!("Point3", Point3, [f32, f64, i8, i16, i32, i64, u8, u16, u32, u64], { x: [], y: [], z: [] }, [0, 0, 0]);
+rec!("Matrix2", Matrix2, [f32, f64, i32, i64], { x: [Vector2], y: [Vector2] }, [1, 0, 0, 1]);
+rec!("Matrix3", Matrix3, [f32, f64, i32, i64], { x: [Vector3], y: [Vector3], z: [Vector3] }, [1, 0, 0, 0, 1, 0, 0, 0, 1]);
+rec!("Matrix4", Matrix4, [f32, f64, i32, i64], { x: [Vector4], y: [Vector4], z: [Vector4], w: [Vector4] }, [1, 0, 0, 0, 0, 1, 0, 0, 0, 0, 1, 0, 0, 0, 0, 1]);
+rec!("Quaternion", Quaternion, [f32, f64, i32, i64], { v: [Vector3], s: [] }, [0, 0, 0, 1]);
+rec!("Euler", Euler, [Rad<f32>, Rad<f64>, Deg<f32>, Deg<f64>], { x: [], y: [], z: [] }, [0, 0, 0]);
+rec!("PerspectiveFov", PerspectiveFov, [f32, f64], { fovy: [Rad], aspect: [], near: [], far: [] }, [1, 1, 1, 2]);
+rec!("Perspective", Perspective, [f32, f64], { left: [], right: [], bottom: [], top: [], near: [], far: [] }, [-1, 1, -1, 1, 1, 2]);
+rec!("Ortho", Ortho, [f32, f64], { left: [], right: [], bottom: [], top: [], near: [], far: [] }, [-1, 1, -1, 1, -1, 1]);
+rec!("PlanarFov", PlanarFov, [f32, f64], { fovy: [Rad], aspect: [], height: [], near: [], far: [] }, [1, 1, 1, 1, 2]);
 
 macro_rules! angle {
     ($name:literal, $T:ident, [$($S:ty),+]) => {
@@ -231,6 +238,9 @@ macro_rules! angle {
             fn read(&self, out: &mut Vec<u64>) {
                 self.0.read(out)
             }
+            fn identity(out: &mut Vec<i64>) {
+                out.push(0);
+            }
         })+
     };
 }
@@ -249,6 +259,9 @@ macro_rules! basis {
             }
             fn gen_kinds(out: &mut Vec<(Kind, GenClass)>) {
                 out.push((<$S as Scal>::KIND, GenClass::Moderate));
+            }
+            fn identity(out: &mut Vec<i64>) {
+                out.push(0);
             }
             fn build(c: &mut Cur) -> Self {
                 let a = <$S as Subject>::build(c);
@@ -274,6 +287,9 @@ macro_rules! basis {
                 for _ in 0..4 {
                     out.push((<$S as Scal>::KIND, GenClass::Moderate));
                 }
+            }
+            fn identity(out: &mut Vec<i64>) {
+                out.extend_from_slice(&[1, 0, 0, 0]);
             }
             fn build(c: &mut Cur) -> Self {
                 let s = <$S as Subject>::build(c);
@@ -313,6 +329,11 @@ macro_rules! decomposed {
                 <$S as Subject>::gen_kinds(out);
                 <$R as Subject>::gen_kinds(out);
                 <$V as Subject>::gen_kinds(out);
+            }
+            fn identity(out: &mut Vec<i64>) {
+                out.push(1);
+                <$R as Subject>::identity(out);
+                <$V as Subject>::identity(out);
             }
             fn build(c: &mut Cur) -> Self {
                 let scale = <$S as Subject>::build(c);
